@@ -88,6 +88,9 @@ structure Probe where
   tCheck : Int
   ok : Bool
   tFail : Int
+  /-- `roundIsOver(ctx)` (context done or deadline passed) when the loop of `healthcheck` reaches this upstream: the time of the
+  round is used up (or the round was cancelled), nothing is sent to the upstream. -/
+  ctxDone : Bool
 deriving Repr
 
 /-- `time.Since(lastFailed) < h.hcBackoff`; the zero time is infinitely long ago. -/
@@ -112,7 +115,10 @@ structure HcAcc where
 
 /-- One iteration of the loop in `healthcheck`. -/
 def hcOne (b : Int) (pr : Nat → Probe) (a : HcAcc) (u : Nat) : HcAcc :=
-  if inBackoff b (a.lf u) (pr u).tCheck then a
+  if (pr u).ctxDone then
+    -- not probed: the upstream keeps its status (active iff no failure is recorded)
+    (if (a.lf u).isNone then { lf := a.lf, act := a.act ++ [u], evs := a.evs } else a)
+  else if inBackoff b (a.lf u) (pr u).tCheck then a
   else if (pr u).ok then
     { lf := put a.lf u none, act := a.act ++ [u],
       evs := a.evs ++ [.probe u (pr u).tCheck true (pr u).tFail] }
@@ -135,6 +141,47 @@ def refresh (c : Cfg) (s : St) (pr : Nat → Probe) : St × List Ev × Bool :=
   else
     let a := hcLoop c s pr
     ({ active := a.act, lastFailed := a.lf }, a.evs, a.act.isEmpty)
+
+/-! ## The round's context: upstreams that do not answer use up the time of the round
+
+The probes of one round share one context (`newCtxWithTimeoutCons(healthcheck.timeout)` in
+`cmd/upstream.go`, `HealthcheckInitDuration` in `NewHandler`).  An upstream that does not answer
+holds its probe until that deadline; the context is then done for every upstream after it. -/
+
+/-- What a main upstream does with a health probe. -/
+inductive PBeh where
+  | ok
+  | fail
+  /-- never answers: the probe ends when the context of the round does, as a network error -/
+  | hang
+deriving DecidableEq, Repr
+
+/-- `ctx.Err() != nil` when the loop reaches upstream `u`: the context was done from the start, or
+an earlier upstream was probed (not in backoff) and hung. -/
+def deadBefore (b : Int) (lf : Nat → Option Int) (t : Int) (dead0 : Bool) (beh : Nat → PBeh) : Nat → Bool
+  | 0 => dead0
+  | u + 1 => deadBefore b lf t dead0 beh u || (decide (beh u = .hang) && !inBackoff b (lf u) t)
+
+/-- The inputs of `hcOne` for a round at time `t` over upstreams behaving like `beh`. -/
+def probesOf (b : Int) (lf : Nat → Option Int) (t : Int) (dead0 : Bool) (beh : Nat → PBeh) : Nat → Probe :=
+  fun u => { tCheck := t, ok := decide (beh u = .ok), tFail := t, ctxDone := deadBefore b lf t dead0 beh u }
+
+/-- The loop step **before the fix** (`fix: forward: do not record a failed health check for an
+upstream that was not probed`): `healthcheckUpstream` was called with the dead context, and an
+upstream client that honours its context (`UpstreamPlain` does: `connsPool.Get(ctx)`, the dial
+timeout, `SetDeadline`) returned an error without sending anything — recorded as a failed probe. -/
+def hcOneOld (b : Int) (pr : Nat → Probe) (a : HcAcc) (u : Nat) : HcAcc :=
+  if inBackoff b (a.lf u) (pr u).tCheck then a
+  else if (pr u).ok && !(pr u).ctxDone then
+    { lf := put a.lf u none, act := a.act ++ [u], evs := a.evs }
+  else
+    { lf := put a.lf u (some (pr u).tFail), act := a.act, evs := a.evs }
+
+def refreshOld (c : Cfg) (s : St) (pr : Nat → Probe) : St :=
+  if c.nFb = 0 then s
+  else
+    let a := (List.range c.nMain).foldl (hcOneOld c.backoff pr) { lf := s.lastFailed, act := [], evs := [] }
+    { active := a.act, lastFailed := a.lf }
 
 /-! ## Histories -/
 
